@@ -21,7 +21,7 @@ def wrap(v, t):
 def bv(t, quick):
     lo, hi = rng(t)
     if quick:
-        vals = [0, 1, -1, 2, 7, 31, 32, 63, 64, lo, hi, lo + 1, hi - 1]
+        vals = [0, 1, -1, 2, 31, 32, 64, lo, hi]
     else:
         vals = [0, 1, -1, 2, -2, 3, 7, 8, 15, 16, 31, 32, 33, 63, 64, 65, 127, 128, 255, 256, 32767, 65535, 65536,
                 0x55555555, -0x55555555, 1 << 30, -(1 << 30), lo, hi, lo + 1, hi - 1]
@@ -262,7 +262,7 @@ def cases(quick=True):
     out = []
     for t in ("Int32", "Int64"):
         vals = bv(t, quick)
-        modes = ["cc", "vv"] if quick else MODES
+        modes = ["vv"] if quick else MODES
         for name, (tmpl, f) in int_binops().items():
             is_tuple = name.startswith("overflowing")
             for a in vals:
@@ -271,7 +271,7 @@ def cases(quick=True):
                         ea, eb = operand(a, t, m[0] == "v"), operand(b, t, m[1] == "v")
                         expr = tmpl.replace("{a}", "(" + ea + ")").replace("{b}", "(" + eb + ")").replace("{T}", t)
                         out.append(make_case("%s.%s(%d,%d).%s" % (t, name, a, b, m), expr, f, (a, b), t, is_tuple))
-        amounts = [0, 1, 31, 32, 33, 63, 64, -1, 65] if quick else [0, 1, 2, 7, 15, 16, 30, 31, 32, 33, 62, 63, 64, 65, 127, 128, -1, -32, -64, 2147483647, -2147483648]
+        amounts = [0, 1, 31, 32, 63, 64, -1] if quick else [0, 1, 2, 7, 15, 16, 30, 31, 32, 33, 62, 63, 64, 65, 127, 128, -1, -32, -64, 2147483647, -2147483648]
         for name, (tmpl, f) in int_shiftops().items():
             for a in vals:
                 for n in amounts:
